@@ -121,7 +121,7 @@ def make_app(world, log, hooks=None):
             hdrs = [("Content-Type", "application/octet-stream"), ("X-Req", "%d-%d" % (cid, idx))]
             if k == "raise0":
                 raise apps.AppError("app-failure-%d-%d" % (cid, idx))
-            if k in ("cl", "chunks", "write", "gen", "fw", "short", "short0", "raise1", "stream"):
+            if k in ("cl", "chunks", "write", "gen", "fw", "short", "short0", "raise1", "stream", "wgate"):
                 hdrs.append(("Content-Length", str(n)))
             if environ["REQUEST_METHOD"] == "HEAD":
                 start_response("200 OK", hdrs)
@@ -152,6 +152,17 @@ def make_app(world, log, hooks=None):
                 log.add(world, cid, idx, "stream-wait")
                 world.wait_until(lambda: tail in conn.client_received or conn.server_closed or conn.client_closed)
                 log.add(world, cid, idx, "stream-acked")
+                return []
+            if k == "wgate":
+                # writes the first w bytes, then waits for the harness (hook "on_mid"), then writes the rest:
+                # a request that is still executing while part of its output is already pending
+                wr = start_response("200 OK", hdrs)
+                wr(payload[:w])
+                h2 = hooks.get("on_mid")
+                if h2:
+                    h2(cid, idx, environ)
+                if payload[w:]:
+                    wr(payload[w:])
                 return []
             if k == "short0":
                 # declares n bytes, produces none at all
